@@ -1,6 +1,6 @@
 """Data for MANIFEST.json (edit here, then run tools_manifest.py)."""
 
-PYVC_PROPS = ["C04", "C08", "C16"]
+PYVC_PROPS = ["C04", "C08", "C09", "C10", "C11", "C16"]
 BOUNDED_PROPS: list[str] = ["C04", "C06", "C09", "C14", "C10", "C11", "C12", "C15"]
 
 
@@ -83,19 +83,26 @@ CHECKS += [
     bchk("C09", "BOUNDED (never counted as proved). The contract of find_unique_graphs - for each workflow name the selected traces contain exactly one "
          "member of every call-tree shape class, never two of one class, same answer for every batch size and ingestion order - is evaluated on the real "
          "SQLDataHolder over all pairs of small labelled trees plus random deeper ones (DESIGN 4/C09). The recursive hash function's deductive contract "
-         "(spec function H, lemmas L1/L2) is not part of this check yet.",
+         "(spec function H) IS part of this check: create_event_id_to_child_nodes_map and compute_graph_hash_from_event_ids are proved to compute "
+         "H(n) = xxh(type(n) ++ join(sorted([H(c) | c child of n]))) over the parent links (12 clauses, all inputs); lemmas L1/L2 about H are not stated.",
          "Bounded exploration on real sqlite; oracle = canonical shapes from the abstract view. One known finding (hash input without separator, D6) is "
          "listed in KNOWN_FINDINGS.txt and printed as KNOWN-FINDING.", "DESIGN.md 4/C09"),
     bchk("C10", "BOUNDED, exhaustive in its stated bound (never counted as proved). Whole-view postcondition of ingestion - nodes == first occurrence per "
          "span id, association rows == the parent links of exactly those spans - over every stream of length <= 4 over a 6-span pool with a duplicated "
          "id x 4 batch sizes, and over every two-run split (duplicates across runs on a file-backed store).",
-         "Bounded exploration on real sqlite. The de-duplication logic's deductive contract under a ghost store (DESIGN 4/C10 stretch) is not part of this "
-         "check yet.", "DESIGN.md 4/C10"),
+         "Bounded exploration on real sqlite for the end-to-end statement. Additionally PROVED (contracts/c10.py, 53 clauses, every batch, no bound): under "
+         "trusted contracts of three DB primitives over a ghost store, a flush (commit_batched_unique_data_to_database -> commit_batched_data_to_database -> "
+         "check_and_filter_non_unique_nodes_and_associations) never fails on a well-formed store, stores exactly the first occurrence of every id not yet "
+         "stored, adds exactly the parent links of the rows it stored, empties the batch and preserves well-formedness; the three primitive contracts are "
+         "what the bounded harness validates on real sqlite. _save_data / add_node_relations / convert_otel_event_to_node_model are not under contract.",
+         "DESIGN.md 4/C10"),
     bchk("C11", "BOUNDED (never counted as proved). Whole-view postconditions of remove_inconsistent_jobs, remove_jobs_outside_of_time_window and "
          "update_job_names_by_root_span (exactly the broken / outside traces removed, every other row unchanged, root name everywhere, well-formedness "
          "preserved, ValueError iff the buffered window is empty) and the differential clause on PV sequences, over all pairs (sampled triples) of 17 "
          "trace variants x time buffers x orders.",
-         "Bounded exploration on real sqlite. get_time_window's arithmetic is additionally meant to be proved (DESIGN 4/C11); not part of this check yet.",
+         "Bounded exploration on real sqlite for the SQL statements. Additionally PROVED (contracts/c11.py, 12 clauses): DataHolder.__init__/save_data track "
+         "min start / max end, min_timestamp / max_timestamp give [0, MAXINT] when nothing was saved, get_time_window returns [min + b, max - b] and raises "
+         "ValueError exactly when that window is empty; two lemmas (no ingestion => everything; buffer 0 contains every saved span).",
          "DESIGN.md 4/C11"),
     bchk("C12", "BOUNDED (never counted as proved). Contract of stream_data over the abstract view: each workflow name once, under it each stored trace "
          "once (restricted by the optional filter), each trace's spans == its nodes rows with child links == its association rows; traces longer than / "
